@@ -277,11 +277,26 @@ pub async fn connect(
     cluster: &MockCluster,
     customise: impl Fn(scylla::client::session_builder::SessionBuilder) -> scylla::client::session_builder::SessionBuilder,
 ) -> Result<scylla::client::session::Session, String> {
+    connect_with(cluster, true, customise).await
+}
+
+/// `full_pools == false`: only waits until every node is connected, then gives the pools 200 ms to do what they do
+/// (for clusters on which the driver cannot fill its pools quickly, e.g. behind the port-shifting NAT).
+pub async fn connect_with(
+    cluster: &MockCluster,
+    full_pools: bool,
+    customise: impl Fn(scylla::client::session_builder::SessionBuilder) -> scylla::client::session_builder::SessionBuilder,
+) -> Result<scylla::client::session::Session, String> {
     let mut last = String::new();
     for attempt in 0..3 {
         match customise(cluster.session_builder()).build().await {
             Ok(session) => {
-                if cluster.wait_pools_full(&session, std::time::Duration::from_secs(10)).await {
+                if full_pools {
+                    if cluster.wait_pools_full(&session, std::time::Duration::from_secs(10)).await {
+                        return Ok(session);
+                    }
+                } else if cluster.wait_connected(&session, std::time::Duration::from_secs(10)).await {
+                    tokio::time::sleep(std::time::Duration::from_millis(200)).await;
                     return Ok(session);
                 }
                 last = "pools-not-full".to_owned();
